@@ -707,4 +707,19 @@ example : (cmdCfg ⟨.all, .num 2, true, some .scatter⟩ t222 pmA).map (fun c =
 example : (match startup ⟨.num 5, .dflt, false, some .scatter⟩ t222 pmA with
     | .init (.error .tooMany) => true | _ => false) = true := by decide
 
+/-- a machine for which hwloc reports no core objects (3 PUs directly below the package) -/
+def tNoCore : Topo := { nc := 3, pus := fun _ => 1, socks := [3], noCoreObjs := true }
+
+/-- FULL STATEMENT THAT FAILS: "a satisfiable request is accepted" for the default thread count
+    and for `--pika:threads=cores` on a machine without core objects while the process mask is
+    used: `get_number_of_default_cores` counts 0 cores (`init_core_affinity_mask_from_core` finds
+    no object), the thread count becomes 0 and the start-up fails although 3 PUs are available. -/
+theorem C15_no_core_objects_zero_threads_partial :
+    (match startup ⟨.dflt, .dflt, false, some .balanced⟩ tNoCore (fun _ => true) with
+     | .cmdlineError => true | _ => false) = true ∧
+    (match startup ⟨.cores, .dflt, false, some .balanced⟩ tNoCore (fun _ => true) with
+     | .cmdlineError => true | _ => false) = true ∧
+    (match startup ⟨.all, .dflt, false, some .balanced⟩ tNoCore (fun _ => true) with
+     | .init (.bound _ _) => true | _ => false) = true := by decide
+
 end PikaVerif.C15
